@@ -156,13 +156,14 @@ const (
 	w8ResetNoClose // Reset without Close, then a complete frame
 	w8SinkFails
 	w8SlowSink
+	w8ReuseOtherConc // Close -> Reset -> Apply(another concurrency level) -> second frame
 	numW8Scripts
 )
 
-var w8Names = []string{"partition", "flush", "readfrom", "close-reset-reuse", "reset-without-close", "sink-fails", "slow-sink"}
+var w8Names = []string{"partition", "flush", "readfrom", "close-reset-reuse", "reset-without-close", "sink-fails", "slow-sink", "reuse-with-other-concurrency"}
 
 type w8Op struct {
-	kind  int // 0 write, 1 flush, 2 close, 3 reset(new sink), 4 readfrom
+	kind  int // 0 write, 1 flush, 2 close, 3 reset(new sink), 4 readfrom, 5 apply(concurrency = frame field)
 	data  []byte
 	frame int
 }
@@ -245,6 +246,13 @@ func buildW8(g *prng.Rng, script, conc, bcIdx int) (ops []w8Op, nblocks int) {
 			}
 		}
 		return append(ops, w8Op{kind: 2}), nb
+	case w8ReuseOtherConc:
+		h := len(data) / 2
+		other := []int{2, 3, 5, 8, 1}[(conc+nb)%5]
+		if other == conc {
+			other = conc + 1
+		}
+		return []w8Op{{kind: 0, data: data[:h]}, {kind: 2}, {kind: 3}, {kind: 5, frame: other}, {kind: 0, data: data[h:], frame: 1}, {kind: 2, frame: 1}}, nb
 	case w8Reuse:
 		h := len(data) / 2
 		return []w8Op{{kind: 0, data: data[:h]}, {kind: 2}, {kind: 3}, {kind: 0, data: data[h:], frame: 1}, {kind: 2, frame: 1}}, nb
@@ -288,6 +296,10 @@ func runW8(c *Ctx, ops []w8Op, conc int, cc, bc bool, mkSink func(k int) *gen.Si
 			case 4:
 				_, err := w.ReadFrom(bytes.NewReader(op.data))
 				note("ReadFrom", err)
+			case 5:
+				if conc != 1 { // the sequential reference stays sequential
+					note("Apply", w.Apply(lz4.ConcurrencyOption(op.frame)))
+				}
 			}
 		}
 	})
